@@ -406,7 +406,7 @@ func udpHandle(c *Ctx, uc udpCase) {
 		after := false
 		wait := 200 * time.Microsecond
 		if call != "" && uc.logic == "ok" {
-			wait = 20 * time.Millisecond
+			wait = 3 * time.Second // the post-hook goroutine is expected: give it all the time a loaded machine may need
 		} else {
 			runtime.Gosched()
 		}
@@ -514,6 +514,11 @@ func validConnID(uc udpCase, age time.Duration) []byte {
 }
 
 func replayUDP(c *Ctx, op string, a map[string]string) {
+	if op == "clock.stall" {
+		ms, _ := strconv.Atoi(a["ms"])
+		clockStall(c, ms)
+		return
+	}
 	if op != "udp.handle" {
 		return
 	}
